@@ -744,6 +744,152 @@ def rule_r6(ctx):
     return rr
 
 
+def _lin(sym_or_int, rename):
+    """Sym -> {symbol: coefficient, '1': const} with the symbols renamed."""
+    out = {}
+    if isinstance(sym_or_int, int):
+        out["1"] = sym_or_int
+        return out
+    for k, c in sym_or_int.terms.items():
+        k2 = rename(k)
+        out[k2] = out.get(k2, 0) + c
+    out["1"] = out.get("1", 0) + sym_or_int.const
+    return out
+
+
+def _lin_add(a, b, fb=1):
+    out = dict(a)
+    for k, c in b.items():
+        out[k] = out.get(k, 0) + fb * c
+    return {k: c for k, c in out.items() if c}
+
+
+_SEEN_H: set = set()
+
+
+def _default_pairing(p):
+    """Findings (message, site) about the pairing of positional defaults with parameters on one path of
+    the lambda renderer."""
+    from ..semwalk import iter_tnodes  # noqa: F401
+
+    def nk(s):
+        return re.sub(r":[A-Za-z|]+", "", str(s))
+
+    PO, A, D = "len(Lambda.args.posonlyargs)", "len(Lambda.args.args)", "len(Lambda.args.defaults)"
+    out = []
+
+    def holes_in(v, acc, seen=None):
+        seen = _SEEN_H if seen is None else seen
+        if id(v) in seen:
+            return
+        seen.add(id(v))
+        if isinstance(v, Hole):
+            acc.append(v)
+        elif isinstance(v, Str):
+            for x in v.parts:
+                holes_in(x, acc, seen)
+        elif isinstance(v, StrOp):
+            for x in v.args:
+                holes_in(x, acc, seen)
+        elif isinstance(v, Rep):
+            for x in v.items:
+                holes_in(x, acc, seen)
+        elif isinstance(v, PList):
+            for x in v.items:
+                holes_in(x, acc, seen)
+        elif isinstance(v, TNode):
+            for x in v.fields.values():
+                holes_in(x, acc, seen)
+
+    def is_pos_default(h):
+        path = nk(h.child.short_path()) if hasattr(h.child, "short_path") else ""
+        return bool(re.search(r"Lambda\.args\.defaults\[", path))
+
+    stores = []
+    seen_s = set()
+
+    def find_stores(v):
+        if id(v) in seen_s:
+            return
+        seen_s.add(id(v))
+        if isinstance(v, TNode) and v.kind == "$SetItem":
+            stores.append(v)
+        if isinstance(v, Str):
+            for x in v.parts:
+                find_stores(x)
+        elif isinstance(v, StrOp):
+            for x in v.args:
+                find_stores(x)
+        elif isinstance(v, (Rep, PList)):
+            for x in v.items:
+                find_stores(x)
+        elif isinstance(v, TNode):
+            for x in v.fields.values():
+                find_stores(x)
+
+    find_stores(p.result)
+    in_store = set()
+    for st in stores:
+        hs = []
+        holes_in(st.fields.get("value"), hs, set())
+        hs = [h for h in hs if is_pos_default(h)]
+        if not hs:
+            continue
+        for h in hs:
+            in_store.add(id(h))
+        rep = [nk(r) for r in getattr(st, "rep", [])]
+        over = rep[-1] if rep else ""
+        if "Lambda.args.defaults" not in over or "kw_defaults" in over:
+            out.append((f"a positional default is attached inside a loop over `{over or 'nothing'}`, not over arguments.defaults: the defaults are not walked one by one", st.site))
+            continue
+        reversed_walk = over.startswith("reversed(")
+        idx = st.fields.get("index")
+        if not isinstance(idx, Sym):
+            out.append((f"the position a default is attached to is `{idx!r}`, not a linear function of the iteration", st.site))
+            continue
+        ren = lambda k: "k" if k.startswith("index(") else nk(k)  # noqa: E731
+        I = None
+        carried = [k for k in idx.terms if k.startswith("carried(")]
+        if carried:
+            name = carried[0][len("carried("):-1]
+            rec = [c for c in getattr(p, "carried", []) if c["name"] == name]
+            if not rec or not isinstance(rec[0].get("init"), (Sym, Cst)) or not isinstance(rec[0].get("step"), Sym):
+                out.append((f"the index `{name}` of the default store has no analysable start / step", st.site))
+                continue
+            c = rec[0]
+            init = _lin(c["init"] if isinstance(c["init"], Sym) else c["init"].value, ren)
+            step = c["step"].const if set(c["step"].terms) == {f"carried({name})"} and c["step"].terms[f"carried({name})"] == 1 else None
+            if step is None or c.get("updated") is not True:
+                out.append((f"the index `{name}` is not advanced by a constant on every iteration", st.site))
+                continue
+            # value at the use point in iteration k: init + step*k + (idx.const relative to the carried value)
+            I = _lin_add(init, {"k": step, "1": idx.const})
+            I = _lin_add(I, {ren(k2): c2 for k2, c2 in idx.terms.items() if not k2.startswith("carried(")})
+        else:
+            I = _lin(idx, ren)
+        # a negative index counts from the end of the list as it is at that moment
+        nonconst = {k: c for k, c in I.items() if k != "1"}
+        if (nonconst and all(c < 0 for c in nonconst.values()) and I.get("1", 0) <= 0) or (not nonconst and I.get("1", 0) < 0):
+            I = _lin_add(_lin(st.len_before, ren), I)
+        want = {PO: 1, A: 1}
+        E = _lin_add(want, {"1": -1, "k": -1}) if reversed_walk else _lin_add(want, {D: -1, "k": 1})
+        diff = _lin_add(I, E, -1)
+        if diff:
+            def show(l):
+                return " + ".join(f"{c}*{k}" if k != "1" else str(c) for k, c in sorted(l.items())) or "0"
+            out.append((f"defaults are paired with the wrong parameters: in iteration k (walking {'reversed ' if reversed_walk else ''}defaults) the default is attached at position {show(I)}, but defaults[j] belongs to parameter len(posonlyargs)+len(args)-len(defaults)+j, i.e. position {show(E)} (`lambda a=1, b=2` must not become `lambda a=2,b=1`; a `/` already in the list shifts everything by one)", st.site))
+    # defaults emitted outside any store (appended together with the name, ...): each must sit in a loop over defaults
+    allh = []
+    holes_in(p.result, allh, set())
+    for h in allh:
+        if id(h) in in_store or not is_pos_default(h):
+            continue
+        rep = [nk(r) for r in getattr(h, "rep", [])]
+        if not rep or "Lambda.args.defaults" not in rep[-1]:
+            out.append((f"the default {nk(h.child.short_path())} is emitted inside a loop over `{rep[-1] if rep else 'nothing'}`, not over arguments.defaults: defaults that belong to parameters outside that list (positional-only ones) are never printed", h.site if hasattr(h, "site") else "?"))
+    return out
+
+
 def lambda_skeleton_rule(ctx):
     """C11-R6: rendering of the lambda signature by the custom unparser."""
     rr = RuleResult("C11-R6", "lambda signature rendering: all seven fields consumed, groups in signature order with '/', '*', '**' guarded by the presence of the fields")
@@ -811,6 +957,20 @@ def lambda_skeleton_rule(ctx):
             rr.fail(f"C11-R6|Lambda|signature|{re.sub('[^a-z]+', '-', bad.lower())[:40]}", f"unparse_Lambda: {bad}: `{got[:140]}` [{short_ctx(p, 100)}]", what=what)
         else:
             rr.ok(what, sample={"rule": "C11-R6", "context": short_ctx(p, 80), "skeleton": got[:120]})
+    # pairing of the positional defaults: defaults[j] belongs to parameter P - D + j of
+    # posonlyargs + args (P names, D defaults).  The position the store denotes is computed as a
+    # linear form in the iteration number k and the list lengths and compared with that.
+    seen_pair = set()
+    for p in paths:
+        for msg, site in _default_pairing(p):
+            if (msg[:40], site) in seen_pair:
+                continue
+            seen_pair.add((msg[:40], site))
+            rr.instances += 1
+            rr.fail(f"C11-R6|Lambda|defaults|{re.sub('[^a-z]+', '-', msg.lower())[:40]}", f"unparse_Lambda ({site}): {msg} [{short_ctx(p, 100)}]", where=str(site), what=f"Lambda|defaults|pairing@{site}")
+    if not seen_pair:
+        rr.instances += 1
+        rr.ok("Lambda|defaults|pairing", sample={"rule": "C11-R6", "verdict": "defaults[j] is attached to parameter len(posonlyargs)+len(args)-len(defaults)+j"})
     # an index that pairs the entries of one list with the positions of another must walk the WHOLE
     # list: in a filtered copy the positions have shifted by the number of entries left out
     seen_f = set()
